@@ -554,8 +554,6 @@ DEP = {
     'conv1d_backward': [{'grad', 'weight', 'a_shape', 'stride', 'padding', 'dilation'}, {'grad', 'windows'}, {'grad'}],
     'conv2d_backward': [{'grad', 'weight', 'a_shape', 'stride', 'padding', 'dilation'}, {'grad', 'windows'}, {'grad'}],
     'batch_norm_backward': [{'grad', 'variance', 'eps'}, {'grad', 'x', 'mean', 'variance', 'eps'}, {'grad'}],
-    'col2im_fast': [{'a', 'output_shape', 'kernel_size', 'dilation', 'stride', 'padding'}],
-    'im2col_fast': [{'a', 'kernel_size', 'dilation', 'stride', 'padding'}],
 }
 
 
@@ -564,6 +562,10 @@ def check_dep(model, R, P, kernel_funcs):
     R.rule(P + '.DEP', 'on every path each returned gradient slot data-depends on the saved values / arguments its closed form needs '
                        '(frozen table, must-dependence analysis: join = intersection)', floor=len(kernel_funcs))
     for kf in kernel_funcs:
+        if kf.mod.modname == 'synapgrad.conv_tools':
+            # the conv_tools routines are decided term by term on evaluated paths (sa/rules_convpe.py: C06 / C16), which subsumes a dependence table
+            R.ob(P + '.DEP', kf.qualname, 'decided by the evaluated conv_tools rules (OUTSIZE / PADCROP / PAIR-FAST / STRIDED)', True, '', kf.loc)
+            continue
         want = DEP.get(kf.name)
         if want is None:
             R.incomplete_at(P + '.DEP', kf.qualname, 'backward kernel has no entry in the dependence table')
